@@ -379,6 +379,33 @@ example : construct true (1 / 1000000 : ℚ) 0 10 (fun a b => 2 * (b - a)) (fun 
   rintro ⟨h, -⟩
   norm_num at h
 
+/-- non-vacuity of `validation_rejects_param`: `f = 1`, `F = x + 1/2` (does not start at 0) -/
+example : construct true (1 / 1000000 : ℚ) 0 10 (fun a b => b - a) (fun _ => 1) (fun x => x + 1 / 2)
+    = .error .paramNotValid := by
+  apply validation_rejects_param
+  · exact ⟨by norm_num, fun k _ => by norm_num⟩
+  · rintro ⟨h, -⟩
+    norm_num at h
+
+/-- non-vacuity of `validation_rejects_incompatible`: `f = 1`, `F = x²` (0 at 0, 1 at 1, monotone on the sampled steps,
+but not the running integral: off by more than `ε` at the grid point `k = 4`) -/
+example : construct true (1 / 1000000 : ℚ) 0 10 (fun a b => b - a) (fun _ => 1) (fun x => x ^ 2)
+    = .error .incompatible := by
+  apply validation_rejects_incompatible
+  · exact ⟨by norm_num, fun k _ => by norm_num⟩
+  · refine ⟨by norm_num, by norm_num, ?_⟩
+    intro k hk
+    interval_cases k <;> norm_num [grid]
+  · intro h
+    have := h 4 (by norm_num)
+    norm_num [grid, abs_le] at this
+
+/-- non-vacuity of `gaussian_validate_inputs_iff` / `_zero`: both type assertions hold, denominator `1/3` resp. `0` -/
+example : gaussianValidateInputs [true, true] (1 / 3 : ℚ) = .ok () ∧
+    gaussianValidateInputs [true, true] (0 : ℚ) = .error .denominatorZero ∧
+    gaussianValidateInputs [true, false] (1 / 3 : ℚ) = .error .inputType := by
+  refine ⟨(gaussian_validate_inputs_iff _ _).mpr ⟨by simp, by norm_num⟩, gaussian_validate_inputs_zero _ (by simp), by decide⟩
+
 /-- the function the driver executes (`constructRat`: the model on core Lean's `Rat`, elaborated without Mathlib) is
 covered by the theorems above (which see `ℚ` through Mathlib's field and order instances) -/
 theorem driver_instance_accepts_iff (ε τ : ℚ) (n : ℕ) (integ : ℚ → ℚ → ℚ) (f F : ℚ → ℚ) :
